@@ -98,7 +98,7 @@ PARAMS = {
         InnerRadix={"L1": [2, 5, 11, 8], "L2": [2, 6, 2, 1, 3, 2, 5], "L3": [2, 6, 2, 1, 1, 3, 2, 2, 4]},
         RadList={"L1": [0, 1, 2, 8, 19, 33, 61], "L2": [0, 2, 5, 13], "L3": [0, 2, 11]},
         sample={"L1": 17000, "L2": 17000, "L3": 17000},
-        LawEvery=(4, 97),     # ... every 4th observed case and every 97th enumerated configuration
+        LawEvery=(8, 194),    # ... every 8th observed case and every 194th enumerated configuration (7 300 + 3 400 states)
     ),
 }
 
